@@ -258,6 +258,26 @@ def check_generate(ctx, fb, cfg):
                 if not (len(cw) == 1 and cw[0][2][1] == P(3)):
                     why = "witness vector is computed with graph %s, specification the graph_data parameter" % [sh(x[2][1], 60) for x in cw]
     ctx.check(why is None, "R01-4", "generate_proof[%s]" % cfg, "Groth16(pk.0, r, s, pk.1, pk.1.num_instance_variables, pk.1.num_constraints, calculate_rln_witness(inputs(W), graph))", why or "", loc(g))
+    # the sibling for an externally computed witness vector hands Groth16 the same key, matrices and the two sizes in the same order
+    # (both are usize: a swap type-checks, returns Ok and yields a proof that does not verify)
+    g2 = fb.items.get("rln::protocol::generate_proof_with_witness")
+    if g2 is None:
+        raise MissingAnchor("rln::protocol::generate_proof_with_witness")
+    ctx.touch(g2)
+    e4 = Engine(fb, inline=lambda i: False)
+    why2 = "no call of create_proof_with_reduction_and_matrices found"
+    for p in e4.run(g2):
+        for c in p.calls(r"create_proof_with_reduction_and_matrices$"):
+            a = c[2]
+            pk = [P(k) for k in range(1, g2.arg_count + 1) if "ProvingKey" in g2.locals[k]["ty"]]
+            pk = pk[0] if len(pk) == 1 else P(2)
+            if a[0] != F(pk, "0") or a[3] != F(pk, "1") or a[4] != F(F(pk, "1"), "num_instance_variables") or a[5] != F(F(pk, "1"), "num_constraints"):
+                why2 = "Groth16 is called with key/matrix arguments %s, specification (pk.0, .., pk.1, pk.1.num_instance_variables, pk.1.num_constraints, ..)" % [sh(x, 60) for x in (a[0], a[3], a[4], a[5])]
+            elif not any(s_[0] == "call" and s_[1].endswith("calculate_witness_element") for s_ in subterms(a[6])):
+                why2 = "assignment is %s, specification the converted witness vector" % sh(a[6], 120)
+            else:
+                why2 = None
+    ctx.check(why2 is None, "R01-4", "generate_proof_with_witness[%s]" % cfg, "Groth16(pk.0, r, s, pk.1, pk.1.num_instance_variables, pk.1.num_constraints, field elements of the given witness)", why2 or "", loc(g2))
 
 
 MUTATOR_RX = r"ZerokitMerkleTree>::(set|set_range|update_next|delete|override_range|set_metadata|close_db_connection)$|MerkleTree::<D, H>::(set|set_range|update_next|delete|batch_insert)$|Database>?::(put|put_batch)$"
@@ -350,5 +370,6 @@ def run(ctx):
     from . import c06
     sub = _Ctx(ctx.pid, ctx.tier)
     c06.check_recompute(sub, ctx.fb("default"))
+    c06.check_writers(sub, ctx.fb("default"))
     for r in sub.results:
         (ctx.ok if r.status == "ok" else ctx.fail)("R01-8", r.instance, r.reason, r.loc)
